@@ -4,6 +4,9 @@ import Driver.C07
 import Driver.C02
 import Driver.C11
 import Driver.C09
+import Driver.C19
+import Driver.C04
+import Driver.C03
 import Driver.C13
 import Driver.C06
 import Driver.C14
@@ -17,6 +20,9 @@ def dispatch (prop : String) (j : Json) : Except String Json :=
   | "C02" => Driver.C02.handle j
   | "C11" => Driver.C11.handle j
   | "C09" => Driver.C09.handle j
+  | "C19" => Driver.C19.handle j
+  | "C04" => Driver.C04.handle j
+  | "C03" => Driver.C03.handle j
   | "C13" => Driver.C13.handle j
   | "C06" => Driver.C06.handle j
   | "C14" => Driver.C14.handle j
